@@ -29,7 +29,7 @@ KINDS = [
     ('v5_publish_q0', True, 'GenericPacket::V5_0Publish(mk_pub5_q0())', 'any', 'conn', False),
     ('v5_publish_q1', True, 'GenericPacket::V5_0Publish(mk_pub5(1, id, false))', 'any', 'pubq', True),
     ('v5_puback', True, 'GenericPacket::V5_0Puback(v5_0::GenericPuback::builder().packet_id(id).build().unwrap())', 'any', 'conn', False),
-    ('v5_pubrec', True, 'GenericPacket::V5_0Pubrec(v5_0::GenericPubrec::builder().packet_id(id).build().unwrap())', 'any', 'conn', False),
+    ('v5_pubrec', True, 'GenericPacket::V5_0Pubrec(v5_0::GenericPubrec::builder().packet_id(id).reason_code(PubrecReasonCode::UnspecifiedError).build().unwrap())', 'any', 'conn', False),
     ('v5_pubrel', True, 'GenericPacket::V5_0Pubrel(v5_0::GenericPubrel::builder().packet_id(id).build().unwrap())', 'any', 'pubrel', True),
     ('v5_pubcomp', True, 'GenericPacket::V5_0Pubcomp(v5_0::GenericPubcomp::builder().packet_id(id).build().unwrap())', 'any', 'conn', False),
     ('v5_subscribe', True, 'GenericPacket::V5_0Subscribe(v5_0::GenericSubscribe::<u16>::parse(&[(id >> 8) as u8, id as u8, 0, 0, 1, b\'t\', 0]).unwrap().0)', 'client', 'conn', True),
@@ -100,6 +100,9 @@ fn cell<R: RoleType>(pkt_v5: bool, role_ok: bool, rule: u8, own_id: bool, id: u1
     if own_id {
         c.pid_man.register_id(id).unwrap();
     }
+    // the same identifier value is also an inbound exchange in progress
+    c.qos2_publish_handled.insert(id);
+    c.publish_recv.insert(id);
     let need_store = c.need_store;
     let offline = c.offline_publish;
     let version_ok = (vsel == 1) == pkt_v5 && vsel != 2;
@@ -129,6 +132,7 @@ fn cell<R: RoleType>(pkt_v5: bool, role_ok: bool, rule: u8, own_id: bool, id: u1
         assert!(c.need_store == need_store && c.pid_puback.len() == 0 && c.pid_pubrec.len() == 0 && c.pid_pubcomp.len() == 0
             && c.pid_suback.len() == 0 && c.pid_unsuback.len() == 0 && sth::len(&c.store) == 0, "[C11] refused send records nothing");
         assert!(c.protocol_version == ver, "[C11] refused send leaves the version unchanged");
+        assert!(c.qos2_publish_handled.contains(&id) && c.publish_recv.contains(&id), "[C11] refused send leaves inbound exchanges untouched");
     }
     core::mem::forget(ev);
     core::mem::forget(c);
